@@ -236,9 +236,33 @@ type varintCase struct {
 func switchCases(fn *ssa.Function, v ssa.Value, sizeThresh map[int64]uint64) ([]varintCase, *ssa.BasicBlock, string) {
 	var out []varintCase
 	b := fn.Blocks[0]
+	var guardPanic *ssa.BasicBlock // `if v > K { panic }` ahead of the cases
+	var guardK uint64
+	sizeSeen := map[int64]bool{}
+	bySize := false
 	for {
 		ifi, ok := b.Instrs[len(b.Instrs)-1].(*ssa.If)
 		if !ok {
+			if _, isPanic := b.Instrs[len(b.Instrs)-1].(*ssa.Panic); !isPanic {
+				switch {
+				case guardPanic != nil:
+					// everything not matched earlier and not rejected by the guard
+					out = append(out, varintCase{guardK, b})
+					b = guardPanic
+				case bySize:
+					// default arm of a switch on SizeVarint(v): the one size not named
+					var rest []int64
+					for n := range sizeThresh {
+						if !sizeSeen[n] {
+							rest = append(rest, n)
+						}
+					}
+					if len(rest) == 1 {
+						out = append(out, varintCase{sizeThresh[rest[0]], b})
+						b = nil // larger values are rejected inside SizeVarint itself
+					}
+				}
+			}
 			if sizeThresh != nil && len(out) > 0 {
 				// cases selected by size are disjoint: order them by bound
 				sort.Slice(out, func(i, j int) bool { return out[i].thresh < out[j].thresh })
@@ -246,11 +270,44 @@ func switchCases(fn *ssa.Function, v ssa.Value, sizeThresh map[int64]uint64) ([]
 			return out, b, ""
 		}
 		bo, ok := ifi.Cond.(*ssa.BinOp)
+		// leading rejection guard
+		if ok && len(out) == 0 && guardPanic == nil && bo.X == v && (bo.Op == token.GTR || bo.Op == token.GEQ) {
+			if c, isC := bo.Y.(*ssa.Const); isC && c.Value != nil {
+				if _, isPanic := b.Succs[0].Instrs[len(b.Succs[0].Instrs)-1].(*ssa.Panic); isPanic {
+					k, _ := constant.Uint64Val(constant.ToInt(c.Value))
+					if bo.Op == token.GEQ {
+						k--
+					}
+					guardPanic, guardK = b.Succs[0], k
+					b = b.Succs[1]
+					continue
+				}
+			}
+		}
+		// bits.Len64(v) <= k  <=>  v <= 2^k - 1
+		if ok && (bo.Op == token.LEQ || bo.Op == token.LSS) {
+			if c, isC := bo.X.(*ssa.Call); isC && len(c.Call.Args) == 1 && c.Call.Args[0] == v {
+				if f := c.Call.StaticCallee(); f != nil && f.Pkg != nil && f.Pkg.Pkg.Path() == "math/bits" && (f.Name() == "Len64" || f.Name() == "Len") {
+					if kc, isK := bo.Y.(*ssa.Const); isK && kc.Value != nil {
+						k := kc.Int64()
+						if bo.Op == token.LSS {
+							k--
+						}
+						if k >= 0 && k < 64 {
+							out = append(out, varintCase{uint64(1)<<uint(k) - 1, b.Succs[0]})
+							b = b.Succs[1]
+							continue
+						}
+					}
+				}
+			}
+		}
 		if ok && sizeThresh != nil && bo.Op == token.EQL {
 			if c, isC := bo.X.(*ssa.Call); isC {
 				if f := c.Call.StaticCallee(); f != nil && f.Name() == "SizeVarint" && f.Pkg == fn.Pkg && len(c.Call.Args) == 1 && c.Call.Args[0] == v {
 					if k, isK := bo.Y.(*ssa.Const); isK && k.Value != nil {
 						if th, known := sizeThresh[k.Int64()]; known {
+							sizeSeen[k.Int64()], bySize = true, true
 							out = append(out, varintCase{th, b.Succs[0]})
 							b = b.Succs[1]
 							continue
